@@ -125,6 +125,8 @@ def print_stubs(cx, engine):
         (re.compile(r"^<W as std::io::Write>::write_all$"), h_write_all),
         (re.compile(r"^<W as std::io::Write>::(write|write_vectored)$"), h_write),
         (re.compile(r"^(?:std::io::)?IoSlice::<'_>::new$"), lambda e, st, fr, c, a, m: Blob("ioslice")),
+        (re.compile(r"^<\[u8\] as (?:std::ops::)?Index<(?:std::ops::)?Range(?:From|To|Full)?<usize>>>::index$"), lambda e, st, fr, c, a, m: Ref(("V", Opaque("subslice", "part", {"of": "arg", "lo": z3.BitVecVal(0, 64), "hi": z3.BitVecVal(0, 64)})))),
+        (re.compile(r"^usize::saturating_sub$|^core::num::<impl usize>::saturating_sub$"), lambda e, st, fr, c, a, m: e.sym_int("usize", "satsub")),
         (re.compile(r"^<W as std::io::Write>::write_fmt$"), h_write_fmt),
         (re.compile(r"^core::fmt::rt::Argument::<'_>::new_(\w+)::<\w+>$"), h_fmt_arg),
         (re.compile(r"^(?:core::fmt::)?Arguments::<'_>::new(?:_v1|_const)?::<"), h_fmt_args),
@@ -155,7 +157,7 @@ def print_options(cx, engine, st):
     return Agg("struct", "Options", vals), cons, ov
 
 
-def explore_print(cx, res, fname, mk_args, custom=False, loop_mode="cut", inline_formatter=False):
+def explore_print(cx, res, fname, mk_args, custom=False, loop_mode="cut", inline_formatter=False, opt_fix=None):
     """fname: callee text resolving to a print.rs function. mk_args(engine, st) -> (list of arg values after the
     formatter/writer arguments are placed by type, constraints, info)"""
     eng = C.make_engine(cx, [], loop_mode=loop_mode, timeout_s=120, max_paths=20000, unroll=3)
@@ -172,6 +174,8 @@ def explore_print(cx, res, fname, mk_args, custom=False, loop_mode="cut", inline
         cons = []
         opts, c2, ov = print_options(cx, e, st)
         cons += c2
+        for fld, vname in (opt_fix or {}).items():
+            cons.append(ov[fld] == cx.enums[PRINT_OPT_ENUMS[fld]].index(vname))
         info["ov"] = ov
         st.heap["fmt"] = Agg("struct", "CustomizedFormatter", [opts])
         st.heap["writer"] = Opaque("W", "writer")
@@ -417,13 +421,18 @@ def claim_escapes(cx, res, kf):
     HEXD = b"0123456789ABCDEF"
     mn = {"Quote": b'\\"', "ReverseSolidus": b"\\\\", "Alert": b"\\a", "Backspace": b"\\b", "LineFeed": b"\\n",
           "CarriageReturn": b"\\r", "Tab": b"\\t"}
-    for fname, ctl in (("write_r6rs_char_escape", "r6rs"), ("write_elisp_char_escape", "elisp")):
+    for fname, ctl, fix in (("write_r6rs_char_escape", "r6rs", None), ("write_elisp_char_escape", "elisp", None),
+                            ("print::Formatter::write_char_escape", "r6rs", None),
+                            ("<CustomizedFormatter as Formatter>::write_char_escape", "r6rs", {"string_syntax": "R6RS"}),
+                            ("<CustomizedFormatter as Formatter>::write_char_escape", "elisp", {"string_syntax": "Elisp"})):
         def mk(e, st):
             d = z3.BitVec("esc", 64)
             b = e.sym_int("u8", "ctlbyte")
             ev = EnumV("CharEscape", d, {CE.index("AsciiControl"): [b]})
             return [ev], [z3.ULT(d, z3.BitVecVal(len(CE), 64))], {"esc": d, "b": b.e}
-        eng, fn, info, terms = explore_print(cx, res, fname, mk)
+        eng, fn, info, terms = explore_print(cx, res, fname, mk, inline_formatter=("Formatter" in fname), opt_fix=fix)
+        if fix:
+            fname = "%s [%s]" % (fname, ", ".join("%s=%s" % kv for kv in fix.items()))
         check_discipline(res, eng, terms, fname)
         seen = 0
         for t in terms:
@@ -496,12 +505,19 @@ def claim_escapes(cx, res, kf):
 def claim_chars(cx, res, kf):
     """write_scheme_char / write_elisp_char: printable ASCII literally (with the Emacs escape set), everything else as lower-case hex."""
     ELISP_ESC = b"()[]\\;|'`#.,"
-    for fname, lead, esc in (("write_scheme_char", b"#\\", None), ("write_elisp_char", b"?", ELISP_ESC)):
+    # the two character writers, and the formatter methods that choose between them: the trait default always uses the
+    # Scheme spelling, the customised formatter follows its char_syntax option (and nothing else)
+    for fname, lead, esc, fix in (("write_scheme_char", b"#\\", None, None), ("write_elisp_char", b"?", ELISP_ESC, None),
+                                  ("print::Formatter::write_char", b"#\\", None, None),
+                                  ("<CustomizedFormatter as Formatter>::write_char", b"#\\", None, {"char_syntax": "R6RS"}),
+                                  ("<CustomizedFormatter as Formatter>::write_char", b"?", ELISP_ESC, {"char_syntax": "Elisp"})):
         def mk(e, st):
             c = e.sym_int("char", "c")
             valid = z3.And(z3.ULE(c.e, z3.BitVecVal(0x10FFFF, 32)), z3.Not(z3.And(z3.UGE(c.e, z3.BitVecVal(0xD800, 32)), z3.ULE(c.e, z3.BitVecVal(0xDFFF, 32)))))
             return [c], [valid], {"c": c.e}
-        eng, fn, info, terms = explore_print(cx, res, fname, mk)
+        eng, fn, info, terms = explore_print(cx, res, fname, mk, inline_formatter=("Formatter" in fname), opt_fix=fix)
+        if fix:
+            fname = "%s [%s]" % (fname, ", ".join("%s=%s" % kv for kv in fix.items()))
         check_discipline(res, eng, terms, fname)
         c = info["c"]
         printable = z3.And(z3.UGE(c, z3.BitVecVal(32, 32)), z3.ULT(c, z3.BitVecVal(127, 32)))
@@ -796,7 +812,7 @@ CLAIMS += [
           "closures: all output goes through write_all / write_fmt (never a bare write whose count is ignored), output "
           "stops at the first failed write, and Ok is returned only if every write succeeded",
           "all paths of 30+ printer functions, arbitrary arguments and options, writer failing at an arbitrary write",
-          configs=("fast",)),
+          configs=("fast",), also=("C17",)),
 ]
 
 
@@ -1520,4 +1536,70 @@ CLAIMS += [
           "the matching visitor method, the printer's visitor methods write exactly itoa(n) / ryu(n) of that value, byte-vector "
           "elements exactly itoa(octet)",
           "every u64 / i64 / f64 payload, every octet; itoa and ryu trusted", configs=("fast",), also=("C02", "C05", "C07", "C13")),
+]
+
+
+# ----------------------------------------------------------------------------- names, keywords, fragments: verbatim text
+
+def claim_name_text(cx, res, kf):
+    """write_symbol / write_string_fragment write the given text verbatim (one piece); write_keyword writes the name with the
+    marker of the keyword syntax: `#:name` for the trait default, `#:name` / `:name` / `name:` for the customised formatter
+    according to its keyword_syntax option and nothing else."""
+    from . import confirm as CF
+    onm = CF.confirm(("print",), res)
+    KS = cx.enums["KeywordSyntax"]
+    n_ok = 0
+
+    def pieces(st):
+        out = []
+        for e in emissions(st):
+            if e[0] != "emit":
+                out.append(("other", e[0]))
+                continue
+            d = e[1]
+            if d[0] == "lit":
+                out.append(("lit", bytes(d[1])))
+            elif d[0] == "name":
+                out.append(("name", d[1]))
+            else:
+                out.append(("other", d[0]))
+        return out
+
+    def run(fname, want, fix=None, label=None):
+        nonlocal n_ok
+
+        def mk(e, st):
+            return [Ref(("V", Opaque("name", "the text", {})))], [], {}
+        eng, fn, info, terms = explore_print(cx, res, fname, mk, inline_formatter=True, opt_fix=fix)
+        what = label or fname
+        check_discipline(res, eng, terms, what)
+        for t in terms:
+            pc = list(t.state.pc)
+            if t.kind == "PANIC":
+                res.must_be_unsat(pc, "%s: reachable panic" % what, onm)
+                continue
+            if t.kind != "RETURN" or K.classify_return(eng, t)[0] not in ("ok", "sym"):
+                continue
+            kind, payload = K.classify_return(eng, t)
+            extra = [payload.discr == 0] if kind == "sym" else []
+            if extra and res.solve(pc + extra)[0] != z3.sat:
+                continue
+            n_ok += 1
+            got = pieces(t.state)
+            if got != want:
+                res.must_be_unsat(pc + extra, "%s writes %r, documented %r" % (what, got, want), onm)
+    NAME = ("name", "the text")
+    run("print::Formatter::write_symbol", [NAME])
+    run("print::Formatter::write_string_fragment", [NAME])
+    run("print::Formatter::write_keyword", [("lit", b"#:"), NAME])
+    for v, want in (("Octothorpe", [("lit", b"#:"), NAME]), ("ColonPrefix", [("lit", b":"), NAME]), ("ColonPostfix", [NAME, ("lit", b":")])):
+        run("<CustomizedFormatter as Formatter>::write_keyword", want, {"keyword_syntax": v}, "CustomizedFormatter::write_keyword [%s]" % v)
+    res.vacuity.append(("name writers return Ok", n_ok >= 6))
+
+
+CLAIMS += [
+    Claim("c07_name_text", "C07", "quick", claim_name_text,
+          "symbols and string fragments are written verbatim in one piece; keywords as `#:name` by the default formatter and as "
+          "`#:name` / `:name` / `name:` by the customised formatter according to its keyword_syntax option only",
+          "abstract name text; every keyword syntax", configs=("fast",), also=("C01", "C02", "C13", "C17")),
 ]
